@@ -414,6 +414,7 @@ func c20(c *an.Check) {
 	}
 	sessionMsgWrappers(c)
 	signedMsgCore(c)
+	epochSections(c)
 	serverLockset(c)
 }
 
